@@ -31,6 +31,27 @@ PROP = "C20"
 MARK = "  # pyrefact: ignore"
 
 
+DIRECT_EDIT_PROGRAMS = {
+    # abstractions.overused_constant: a long literal used five times or more is given a name, all uses are replaced
+    "overused_string": (
+        "import os\n\n\ndef exists():\n    return os.path.exists(\"/srv/application/data/current/index.db\")\n\n\n"
+        "def size():\n    return len(\"/srv/application/data/current/index.db\")\n\n\n"
+        "def parts():\n    for part in \"/srv/application/data/current/index.db\".split(\"/\"):\n        if part:\n"
+        "            print(part, \"/srv/application/data/current/index.db\".count(part))\n\n\n"
+        "def shown():\n    return repr(\"/srv/application/data/current/index.db\")\n\n\n"
+        "def upper():\n    return \"/srv/application/data/current/index.db\".upper()\n\n\n"
+        "print(exists(), size(), shown(), upper())\nparts()\n"),
+    "overused_tuple": (
+        "def known(value):\n    return value in (\"north\", \"south\", \"east\", \"west\")\n\n\n"
+        "def unknown(value):\n    return value not in (\"north\", \"south\", \"east\", \"west\")\n\n\n"
+        "def count(values):\n    total = 0\n    for value in values:\n        if value:\n"
+        "            total += (\"north\", \"south\", \"east\", \"west\").count(value)\n    return total\n\n\n"
+        "def first():\n    return (\"north\", \"south\", \"east\", \"west\")[0]\n\n\n"
+        "def width():\n    return len((\"north\", \"south\", \"east\", \"west\"))\n\n\n"
+        "print(known(\"east\"), unknown(\"up\"), count([\"west\", \"\"]), first(), width())\n"),
+}
+
+
 def annotatable_lines(text: str) -> List[int]:
     """0-based indices of physical lines to which a trailing comment can be appended without changing the program."""
     lines = text.splitlines()
@@ -86,6 +107,11 @@ def skip_file_cases(rep: Report, mods, rng: random.Random, t: str) -> int:
             for where in ("first", "middle", "last"):
                 pos = {"first": 0, "middle": len(lines) // 2, "last": len(lines)}[where]
                 src = "\n".join(lines[:pos] + ["# pyrefact: skip_file"] + lines[pos:])
+                if k % 2:
+                    # what the normalisation steps in front of the rules would touch: tabs, trailing blanks (inside a
+                    # string they are data), runs of blank lines, CRLF, no final newline
+                    src += ["\n\n\n\n\nif True:\n\tnote = \"\"\"kept   \n\tas\tis  \"\"\"   \n", "\r\nvalue = 1  \r\n", "\n\n\n\n# end",
+                            "\n\tx = 1\n"][k // 2 % 4]
                 n += 1
                 try:
                     out = main.format_code(src)
@@ -106,7 +132,8 @@ def skip_file_cases(rep: Report, mods, rng: random.Random, t: str) -> int:
                 if path.read_bytes() != src.encode("utf-8") or os.stat(path).st_mtime_ns != 10 ** 18:
                     rep.violation(f"format_file rewrote a file carrying a skip_file comment ({where} line)",
                                   {"source": src, "file_after": path.read_text()})
-                if stdin_done < (6 if t == "quick" else 40) and where == "middle":
+                # (text-mode pipes translate CRLF on both sides: such inputs are not sent through stdin)
+                if stdin_done < (6 if t == "quick" else 40) and where == "middle" and "\r" not in src:
                     stdin_done += 1
                     n += 1
                     env = dict(os.environ, PYTHONPATH=str(REPO))
@@ -167,12 +194,17 @@ def main(argv=None) -> int:
         if case["pos"] in ("only", "in_def") and case["nl"] and not case["opt"][0]:
             src, _ = shapes.render_case(case)
             progs.append((f"shape:{case['c']}:{case['pos']}", src))
+    # rules of the direct editor that only fire on larger programs: every line gets its turn in both tiers
+    always_all = set()
+    for name, text in DIRECT_EDIT_PROGRAMS.items():
+        progs.append((f"direct:{name}", text))
+        always_all.add(f"direct:{name}")
     items = []
     for origin, text in progs:
         idxs = annotatable_lines(text)
         if not idxs:
             continue
-        pick = idxs if t != "quick" else rng.sample(idxs, min(5, len(idxs)))
+        pick = idxs if (t != "quick" or origin in always_all) else rng.sample(idxs, min(5, len(idxs)))
         for i in pick:
             items.append((f"{origin}@line{i + 1}", annotate(text, [i]), {}))
         if t != "quick" and len(idxs) >= 2:
